@@ -5,6 +5,7 @@ import (
 	"fmt"
 	"math/rand"
 	"reflect"
+	"strings"
 	"time"
 
 	hessian "github.com/vogo/gohessian"
@@ -51,7 +52,7 @@ func (c14) Cases(tier string, seed int64, kf *KnownFindings) []Case {
 
 // craftedInputs: small hand-written hostile inputs aimed at declared lengths and indices.
 func craftedInputs() [][]byte {
-	h := func(s string) []byte { b, _ := hex.DecodeString(s); return b }
+	h := func(s string) []byte { b, _ := hex.DecodeString(strings.ReplaceAll(s, " ", "")); return b }
 	var out [][]byte
 	for _, s := range []string{
 		"58497fffffff",                                 // untyped list, length 2^31-1
@@ -74,8 +75,27 @@ func craftedInputs() [][]byte {
 		"4a00", "4b00", "4c00", "4900", "4400", "5f00", // truncated scalars
 		"43", "4300", "430161", "43016191", "4301619101", // truncated class definitions
 		"4301619101626090", "43016191016261", // instance of other class / wrong index
+		"795190", "78", "7a51905190", "485190515a", "4851905190 5a", "57519051905a", // containers holding references to themselves
+		"71045b696e74795191", "72045b696e747951917951 92", "56045b696e7491795191", // typed list whose element is a self-containing list
+		"4d00519051905a", "4301619101626051 90", // map / object referring to itself
 	} {
 		out = append(out, h(s))
+	}
+	// lists that really carry more than a thousand elements and declare far more
+	for _, hdr := range []string{"584901000000", "58497fffffff", "56045b696e744901000000", "56045b696e74497fffffff"} {
+		b := h(hdr)
+		for i := 0; i < 1030; i++ {
+			b = append(b, 0x90+byte(i%40))
+		}
+		out = append(out, b)
+	}
+	// a class definition that really carries many field names and declares far more
+	{
+		b := h("4301614901000000")
+		for i := 0; i < 1030; i++ {
+			b = append(b, 0x01, 'f')
+		}
+		out = append(out, b)
 	}
 	// 64 KiB of nested list tags (legitimately deep)
 	deep := make([]byte, 65536)
@@ -307,6 +327,11 @@ func mutate(r *rand.Rand, valid []byte, root *hspec.Value, p *hspec.Parser) ([]b
 				}
 			}
 		case 9:
+			if r.Intn(2) == 0 && len(p.Refs) > 0 && a.Off > 0 {
+				// replace the sub-value by a reference to any container (possibly the one enclosing it)
+				k := r.Intn(len(p.Refs) + 1)
+				return splice(a.Off, a.End, []byte{0x51, byte(0x90 + k%48)}), "ref-insert"
+			}
 			b[r.Intn(len(b))] ^= byte(1 << uint(r.Intn(8)))
 			return b, "bit-flip"
 		case 10:
@@ -379,7 +404,12 @@ func (c14) Run(c Case, env *Env) Result {
 			if e.Has("recursive") {
 				share = 0.3
 			}
-			val, _ := zooValue(e, Mix(c.Seed, 500+vi), cfg, share)
+			vcfg := cfg
+			if c.Kind == "mutate" && vi%4 == 3 && e.Has("slice") {
+				vcfg.ForceLen = 1030 + int(Mix(c.Seed, vi)%200) // beyond the decoder's preallocation bound
+				vcfg.MaxLen = 2
+			}
+			val, _ := zooValue(e, Mix(c.Seed, 500+vi), vcfg, share)
 			var tm map[string]reflect.Type
 			var valid []byte
 			var err error
